@@ -223,6 +223,7 @@ static volatile long n_spur = 0, n_dropped = 0;
 static uint64_t last_logn = 0; static int last_bgs = 0; static const void *last_ver = NULL;
 #define MAXBK 64
 static struct { char path[1300]; int tid, opid; } g_backups[MAXBK]; static int g_nbackups = 0;
+static int p_preload_mb = 0; /* before the run: this many MB are written into the log only, recovered into many level-0 tables by a reopen with the small write buffer, and the database is reopened once more (see main) */
 static int p_poolwait = 0;   /* usec: every wait on a condition variable other than the DB's is preceded by a sleep (the waiter holds its mutex): widens the check-then-wait window of the thread pool */
 static int p_failsync = 0;   /* fault injection: the n-th fsync/fdatasync of a table file fails with EIO (0 = off) */
 static volatile long n_tsync = 0; static unsigned char g_istable[4096];
@@ -399,7 +400,7 @@ ssize_t __wrap_write(int fd, const void *buf, size_t n) { sched_point(); return 
 ssize_t __wrap_read(int fd, void *buf, size_t n) { sched_point(); return __real_read(fd, buf, n); }
 ssize_t __wrap_pread(int fd, void *buf, size_t n, off_t off) { sched_point(); return __real_pread(fd, buf, n, off); }
 static int fail_this_sync(int fd) {
-  if (p_failsync > 0 && fd >= 0 && fd < 4096 && g_istable[fd] &&
+  if (g_on && p_failsync > 0 && fd >= 0 && fd < 4096 && g_istable[fd] &&
       __atomic_add_fetch(&n_tsync, 1, __ATOMIC_SEQ_CST) == p_failsync) { errno = EIO; return 1; }
   return 0;
 }
@@ -700,6 +701,8 @@ static void parse_params(int argc, char **argv) {
     else if (!strcmp(argv[i], "reopen")) p_reopen = v;
     else if (!strcmp(argv[i], "failsync")) p_failsync = v;
     else if (!strcmp(argv[i], "poolwait")) p_poolwait = v;
+    else if (!strcmp(argv[i], "preload_mb")) p_preload_mb = v;
+    else if (!strcmp(argv[i], "reuse_logs")) g_opt.reuse_logs = v;
     else if (!strcmp(argv[i], "dropsig")) p_dropsig = v;
     else if (!strcmp(argv[i], "dropbc")) p_dropbc = v;
     else if (!strcmp(argv[i], "keys")) p_keys = strdup(eq + 1);
@@ -762,6 +765,25 @@ int main(int argc, char **argv) {
     for (i = 0; i < 16; i++) g_cp[i] = (long)(rnd(&r) % (uint64_t)(p_pct_k > 0 ? p_pct_k : 1));
   }
   mt = alloc_thread(99); me = mt; reg_stack(mt); mt->alive = 1; mt->where = W_RUN; mt->prio = 500;
+  if (p_preload_mb > 0) {
+    /* many level-0 tables at open: (1) p_preload_mb MB go into the write-ahead log only (64 MiB buffer), (2) a reopen with the
+       run's small buffer makes recovery spill one level-0 table per buffer-full, closed at once, (3) the run's own open follows
+       (with reuse_logs=1 nothing is written by it): whoever must schedule the pending compaction has to do so */
+    ldb_dbopt_t o = g_opt; ldb_t *d0 = NULL; int j; char kb[32]; char *vb = malloc(100000);
+    o.write_buffer_size = 64 << 20; o.reuse_logs = 0;
+    rc = ldb_open(g_dir, &o, &d0);
+    if (rc != LDB_OK) { printf("OPEN-FAILED %d\n", rc); return 4; }
+    memset(vb, 'p', 100000);
+    for (j = 0; j < p_preload_mb * 10; j++) {
+      ldb_slice_t k, v; sprintf(kb, "zpre%05d", j); k = ldb_slice(kb, strlen(kb)); v = ldb_slice(vb, 100000);
+      ldb_put(d0, &k, &v, NULL);
+    }
+    free(vb); ldb_close(d0);
+    o = g_opt; o.reuse_logs = 0; d0 = NULL;
+    rc = ldb_open(g_dir, &o, &d0);
+    if (rc != LDB_OK) { printf("OPEN-FAILED %d\n", rc); return 4; }
+    ldb_close(d0);
+  }
   rc = ldb_open(g_dir, &g_opt, &g_db);
   if (rc != LDB_OK) { printf("OPEN-FAILED %d\n", rc); return 4; }
   g_dbmutex = &g_db->mutex.handle;
